@@ -250,7 +250,18 @@ func registerRace(args []string) {
 
 		ready.Wait()
 		close(start)
-		wg.Wait()
+
+		// every call returns (a registration that is refused while holding the lock must give it back)
+		finished := make(chan struct{})
+
+		go func() { wg.Wait(); close(finished) }()
+
+		select {
+		case <-finished:
+		case <-time.After(60 * time.Second):
+			fmt.Fprintf(os.Stderr, "fatal error: round %d of racing registrations: calls on github.com/trustbloc/sidetree-go/pkg/vdr/sidetreelongform/dochandler/protocolversion/clientregistry.(*Registry).Register did not return within 60 s (deadlock)\n", round)
+			os.Exit(3)
+		}
 
 		var all []regEvent
 
@@ -268,8 +279,22 @@ func registerRace(args []string) {
 
 		// afterwards a lookup finds the factory that was accepted
 		found := 0
-		if v, err := reg.CreateClientVersion("9.0", &common.ProtocolConfig{}); err == nil {
-			found = atoi(v.Version())
+		looked := make(chan int, 1)
+
+		go func() {
+			f := 0
+			if v, err := reg.CreateClientVersion("9.0", &common.ProtocolConfig{}); err == nil {
+				f = atoi(v.Version())
+			}
+
+			looked <- f
+		}()
+
+		select {
+		case found = <-looked:
+		case <-time.After(60 * time.Second):
+			fmt.Fprintf(os.Stderr, "fatal error: round %d of racing registrations: github.com/trustbloc/sidetree-go/pkg/vdr/sidetreelongform/dochandler/protocolversion/clientregistry.(*Registry).CreateClientVersion did not return within 60 s after the registrations (a lock was never given back)\n", round)
+			os.Exit(3)
 		}
 
 		all = append(all, regEvent{Seq: clock + 1, Event: "Invoke", G: g + 1, Op: "lookup", Key: 9},
